@@ -1,6 +1,6 @@
 /*UNIT
 {"props": ["C09","C10","C06","C03"], "kind": "K2", "tier": "quick", "timeout": 600,
- "split": {"define": "ONLY_STAGE", "values": {"hdrsize": 0, "blockhdr": 2, "block": 3, "lastblock": 4, "checksum": 5, "skip": 7}},
+ "split": {"define": "ONLY_STAGE", "values": {"hdrsize": 0, "blockhdr": 2, "block": 3, "lastblock": 4, "checksum": 5, "skiphdr": 6, "skip": 7}},
  "defines": ["ZSTD_DECODER_INTERNAL_BUFFER=64"],
  "extra_src": ["stubs/xxh_stub.c", "stubs/mem_ranges.c"],
  "functions": ["ZSTD_decompressContinue","ZSTD_nextSrcSizeToDecompressWithInputSize","ZSTD_decodeFrameHeader","ZSTD_copyRawBlock","ZSTD_setRleBlock","ZSTD_checkContinuity","ZSTD_getcBlockSize"],
@@ -79,6 +79,10 @@ void harness(void)
     {   ZSTD_dStage const s0 = d->stage; size_t const e0 = d->expected;
 #ifdef ONLY_HDR
         r = ZSTD_decompressContinue(d, dst, cap, src, (ONLY_HDR % 32) - ((ONLY_HDR / 32) == ZSTD_f_zstd1 ? 5u : 1u));
+#elif ONLY_STAGE == 6   /* skippable header: the 3 remaining header bytes; a constant size keeps the staging offset constant */
+        ASSUME(n == 3);
+        r = ZSTD_decompressContinue(d, dst, cap, src, 3);
+        if (!ZSTD_isError(r)) { REACH("continue: skippable header staged"); CLAIM(d->stage == ZSTDds_skipFrame && r == 0, "C10 continue: after the skippable header the decoder skips the payload"); }
 #else
         r = ZSTD_decompressContinue(d, dst, cap, src, n);
 #endif
